@@ -642,6 +642,15 @@ func (s *Stream) ProcessSync(data map[string]any) (map[string]any, error) {
 func (s *Stream) enrichData(data map[string]any) (dataMap map[string]any, keep bool, err error) {
 	dataMap = data
 	if !s.hasJoin() {
+		if s.hasAnalyticFields() || len(s.config.WhereAnalyticCalls) > 0 {
+			// evalAnalytic injects analytic results and WHERE placeholders into the row;
+			// work on a shallow copy so the caller's map is left as it was (the JOIN path
+			// below already copies).
+			dataMap = make(map[string]any, len(data)+len(s.config.AnalyticFields)+len(s.config.WhereAnalyticCalls))
+			for k, v := range data {
+				dataMap[k] = v
+			}
+		}
 		return dataMap, true, nil
 	}
 	wm, k, jerr := s.enrichJoin(data)
